@@ -44,6 +44,7 @@ def main():
     checks = [prop]
     if '--src' in args:
         src = args[args.index('--src') + 1]
+    rnd = int(args[args.index('--round') + 1]) if '--round' in args else None
     if '--checks' in args:
         checks = args[args.index('--checks') + 1].split(',')
     dest = f'/verif/seeded/{prop}-{n}'
@@ -53,6 +54,8 @@ def main():
             shutil.copy(os.path.join(src, f), os.path.join(dest, f))
     meta = {'property': prop, 'n': int(n), 'repo_head': run(['git', '-C', '/repo', 'rev-parse', '--short', 'HEAD']).stdout.strip(),
             'when': time.strftime('%Y-%m-%d %H:%M:%S')}
+    if rnd is not None:
+        meta['round'] = rnd
     notes = os.path.join(dest, 'notes.md')
     if os.path.exists(notes):
         meta['needs_to_manifest'] = open(notes).read()[:3000]
@@ -99,7 +102,7 @@ def main():
     if os.path.exists(old_path):
         # keep what earlier versions of the checks did with this change (misses are why checks were extended)
         old = json.load(open(old_path))
-        if 'round' in old:
+        if 'round' in old and 'round' not in meta:
             meta['round'] = old['round']
         hist = old.get('history', [])
         hist = [hist] if isinstance(hist, str) else hist
